@@ -40,10 +40,7 @@ struct TokApp {
 }
 
 fn start(workers: usize, bind: &str) -> Result<TokApp, String> {
-    let port = {
-        let l = TcpListener::bind(format!("{}:0", bind)).map_err(|e| e.to_string())?;
-        l.local_addr().unwrap().port()
-    };
+    let port = hvcommon::net::free_port(bind);
     let addr: SocketAddr = format!("{}:{}", bind, port).parse().unwrap();
     let cancel = CancellationToken::new();
     let (dtx, drx) = channel();
